@@ -211,6 +211,10 @@ func (pc *posChecker) redirs(what string, rs []*ast.Redir) {
 		pc.word(what+".Redir.Word", r.Word, false)
 		pc.word(what+".Redir.Heredoc", r.Heredoc, true)
 		pc.word(what+".Redir.Delim", r.Delim, true)
+		// the redirection contains its own here-document (children lie inside their parents)
+		if len(r.Heredoc) != 0 && r.Heredoc.End().After(r.End()) {
+			pc.failf("%s.Redir:heredoc-outside-redir:heredoc-end=%d:%d:redir-end=%d:%d", what, r.Heredoc.End().Line(), r.Heredoc.End().Col(), r.End().Line(), r.End().Col())
+		}
 	}
 }
 
